@@ -1,16 +1,162 @@
 /-
 C08 — Snapshotter keeps snapshot metadata, directories and backend mounts in step.
 Only property theorems and their non-vacuity examples live here.
+
+Setting (see `SV/Model/Snap.lean`): a history is a list of calls, each with its own `Oracle`
+(the outcome of every backend Mount/Check/Unmount of that call); `runOps (init cfg0) hist` is the
+state after the history; `plan s orc op` is the list of atomic steps of the next call and
+`Reachable cfg0 s` says that `s` is the state after some history and some prefix of the steps of
+the call in flight.  All theorems quantify over ALL histories, configurations and oracles.
+Sequential semantics: one call in flight.
 -/
 import SV.Lemmas.Snap
 
 namespace SV.Props.C08
 open SV.Snap
 
+/-- the key whose parent chain `mounts()` checks for a call that can return a mount list -/
+def checkKeyOf : Op → Option String
+  | .prepare _ p _ => some p
+  | .view _ p _ => some p
+  | .mounts k => some k
+  | _ => none
+
+/-- the key of the snapshot a returned mount list is for -/
+def keyOf : Op → String
+  | .prepare k _ _ => k
+  | .view k _ _ => k
+  | .mounts k => k
+  | _ => ""
+
 /-- A backend mount implies its directory — in EVERY state a crash can expose: after any history
 of calls with any backend outcomes, at any prefix of the atomic steps of the call in flight. -/
 theorem mount_implies_dir (cfg0 : Config) (s : State) (h : Reachable cfg0 s) :
     ∀ n ∈ s.mounts, Dir.id n ∈ s.dirs :=
   (inv_reachable h).mountDir
+
+/-- No mount list is handed out for a chain that contains a remote layer whose Check fails:
+whenever Prepare / View / Mounts returns mounts, every remote-labelled snapshot on the chain that
+was checked (from the parent, resp. from the key itself) had a successful Check in this call. -/
+theorem mounts_unavailable_on_failed_check (s : State) (orc : Oracle) (op : Op) (m : MountSpec)
+    (h : (runOp s orc op).2 = .mounts m) :
+    ∃ ck ch, checkKeyOf op = some ck ∧ chainOf (runOp s orc op).1 ck = some ch ∧
+      ∀ c ∈ ch, isRemote c.labels = true → orc.checkOk c.id = true := by
+  unfold runOp at h ⊢
+  rcases plan_mounts_cases h with ⟨k, p, l, rfl, hp⟩ | ⟨k, p, l, rfl, hp⟩ | ⟨k, rfl, hp⟩
+  · rw [hp] at h ⊢
+    obtain ⟨st1, sn, pids, _, hm, hst, _⟩ := preparePlan_mounts h
+    obtain ⟨_, ch, h1, h2⟩ := mountsPlan_result' hm
+    exact ⟨p, ch, rfl, by rw [hst]; exact h1, h2⟩
+  · rw [hp] at h ⊢
+    obtain ⟨st1, sn, pids, _, hm, hst⟩ := viewPlan_mounts h
+    obtain ⟨_, ch, h1, h2⟩ := mountsPlan_result' hm
+    exact ⟨p, ch, rfl, by rw [hst]; exact h1, h2⟩
+  · rw [hp] at h ⊢
+    obtain ⟨hst, sn, ps, _, _, _, ch, h1, h2⟩ := mountsOp_spec h
+    exact ⟨k, ch, rfl, by rw [hst]; exact h1, h2⟩
+
+/-- ... and conversely a failing Check on the chain makes the call fail (it cannot return mounts). -/
+theorem failed_check_no_mounts (s : State) (orc : Oracle) (op : Op) (ck : String) (ch : List Snap) (c : Snap)
+    (hck : checkKeyOf op = some ck) (hch : chainOf (runOp s orc op).1 ck = some ch) (hc : c ∈ ch)
+    (hr : isRemote c.labels = true) (hfail : orc.checkOk c.id = false) :
+    ∀ m, (runOp s orc op).2 ≠ .mounts m := by
+  intro m hm
+  obtain ⟨ck', ch', h1, h2, h3⟩ := mounts_unavailable_on_failed_check s orc op m hm
+  rw [hck] at h1
+  cases h1
+  rw [hch] at h2
+  cases h2
+  rw [h3 c hc hr] at hfail
+  cases hfail
+
+/-- Lower directories are listed nearest parent first: the mount list returned for a snapshot is
+`mountSpec sn (ids of ch)` where `ch` is the chain obtained by following parent links from the
+snapshot's parent (`IsChain`: head = the parent, next = the parent's parent, …). -/
+theorem lowerdir_nearest_parent_first (cfg0 : Config) (hist : List (Op × Oracle)) (orc : Oracle) (op : Op)
+    (m : MountSpec) (h : (runOp (runOps (init cfg0) hist) orc op).2 = .mounts m) :
+    ∃ sn ch, findKey (runOp (runOps (init cfg0) hist) orc op).1.snaps (keyOf op) = some sn ∧
+      IsChain (runOps (init cfg0) hist).snaps sn.parent ch ∧ m = mountSpec sn (ch.map (·.id)) := by
+  have hinv := inv_runOps (inv_init cfg0) hist
+  generalize runOps (init cfg0) hist = s at h hinv ⊢
+  unfold runOp at h ⊢
+  rcases plan_mounts_cases h with ⟨k, p, l, rfl, hp⟩ | ⟨k, p, l, rfl, hp⟩ | ⟨k, rfl, hp⟩
+  · rw [hp] at h ⊢
+    obtain ⟨st1, sn, pids, hc, hm, hst, _⟩ := preparePlan_mounts h
+    obtain ⟨hf, hpar, _, _, _, ps, hps, hmm, _⟩ := create_mounts_spec hinv hc hm
+    refine ⟨sn, ps, by rw [hst]; exact hf, ?_, hmm⟩
+    rw [hpar]; exact chain_isChain _ _ _ hps
+  · rw [hp] at h ⊢
+    obtain ⟨st1, sn, pids, hc, hm, hst⟩ := viewPlan_mounts h
+    obtain ⟨hf, hpar, _, _, _, ps, hps, hmm, _⟩ := create_mounts_spec hinv hc hm
+    refine ⟨sn, ps, by rw [hst]; exact hf, ?_, hmm⟩
+    rw [hpar]; exact chain_isChain _ _ _ hps
+  · rw [hp] at h ⊢
+    obtain ⟨hst, sn, ps, hf, hps, hmm, _⟩ := mountsOp_spec h
+    exact ⟨sn, ps, by rw [hst]; exact hf, chain_isChain _ _ _ hps, hmm⟩
+
+/-- the `lowerdir=` option is exactly that chain, and it is never empty -/
+theorem overlay_lowerdir_is_chain (sn : Snap) (pids : List Nat) (up : Option Nat) (lower : List Nat)
+    (h : mountSpec sn pids = .overlay up lower) : lower = pids ∧ pids ≠ [] :=
+  mountSpec_overlay h
+
+/-- the parent chain of every live snapshot exists (no dangling parent link, the walk terminates) -/
+theorem parent_chain_total (cfg0 : Config) (s : State) (h : Reachable cfg0 s) (sn : Snap) (hsn : sn ∈ s.snaps) :
+    ∃ ch, chainOf s sn.key = some ch ∧ IsChain s.snaps sn.key ch := by
+  have hinv := inv_reachable h
+  apply chainOf_total hinv
+  right
+  exact hasKey_true.mpr ⟨sn, hinv.findKey_of_mem hsn⟩
+
+/-- A backend mount is released only after its snapshot has been removed, or while closing:
+at every Unmount step of every call other than Close, no live snapshot owns that directory. -/
+theorem unmount_only_after_removed_or_close (cfg0 : Config) (hist : List (Op × Oracle)) (orc : Oracle) (op : Op)
+    (pre post : List Step) (n : Nat) (ok : Bool)
+    (hsplit : (plan (runOps (init cfg0) hist) orc op).1 = pre ++ .fsUnmount (.id n) ok :: post) :
+    (∃ order, op = .close order) ∨
+    ∀ a ∈ (applySteps (runOps (init cfg0) hist) pre).snaps, a.id ≠ n := by
+  have hinv := inv_runOps (inv_init cfg0) hist
+  by_cases hc : ∃ order, op = .close order
+  · exact Or.inl hc
+  · right
+    have hs := plan_safe hinv orc op (fun order e => hc ⟨order, e⟩)
+    rw [hsplit] at hs
+    rcases allSteps_split hs with h | h
+    · cases h
+    · exact h
+
+/-- ... and always before its directory is deleted: at every RemoveAll step the directory carries
+no backend mount any more. -/
+theorem unmount_before_rmdir (cfg0 : Config) (hist : List (Op × Oracle)) (orc : Oracle) (op : Op)
+    (pre post : List Step) (d : Dir)
+    (hsplit : (plan (runOps (init cfg0) hist) orc op).1 = pre ++ .rmdir d :: post) :
+    ∀ n, d = .id n → n ∉ (applySteps (runOps (init cfg0) hist) pre).mounts := by
+  have hinv := inv_runOps (inv_init cfg0) hist
+  have hs := plan_stepsOk hinv orc op
+  rw [hsplit] at hs
+  exact stepsOk_split hs
+
+/-- A directory is deleted only if no live snapshot owns it — or, during Close, if it belongs to a
+remote snapshot (whose directory restore recreates). -/
+theorem rmdir_only_orphans_or_close (cfg0 : Config) (hist : List (Op × Oracle)) (orc : Oracle) (op : Op)
+    (pre post : List Step) (d : Dir)
+    (hsplit : (plan (runOps (init cfg0) hist) orc op).1 = pre ++ .rmdir d :: post) :
+    liveDir (applySteps (runOps (init cfg0) hist) pre).snaps d = false ∨
+    ((∃ order, op = .close order) ∧ remoteDir (applySteps (runOps (init cfg0) hist) pre).snaps d = true) := by
+  have hinv := inv_runOps (inv_init cfg0) hist
+  by_cases hc : ∃ order, op = .close order
+  · obtain ⟨order, rfl⟩ := hc
+    by_cases hcl : (runOps (init cfg0) hist).closed = true
+    · simp [plan, hcl] at hsplit
+    · have hs := closePlan_safe (runOps (init cfg0) hist) orc order
+      simp only [plan, hcl] at hsplit
+      rw [hsplit] at hs
+      rcases allSteps_split hs with h | ⟨_, h⟩
+      · exact Or.inl h
+      · exact Or.inr ⟨⟨order, rfl⟩, h⟩
+  · have hs := plan_safe hinv orc op (fun order e => hc ⟨order, e⟩)
+    rw [hsplit] at hs
+    rcases allSteps_split hs with h | ⟨h, _⟩
+    · exact Or.inl h
+    · cases h
 
 end SV.Props.C08
